@@ -15,13 +15,16 @@ logging.disable(logging.CRITICAL)
 from sim import runner  # noqa: E402
 
 
+PROP = {'mempool': 'C09', 'merkle': 'C11'}
+
+
 def digests(fams, seeds, prop='C01'):
     out = {}
     for fn in fams:
         fam = runner.load_family(fn)
         for s in seeds:
             rng = random.Random(s)
-            case = fam.gen(rng, 'quick', prop)
+            case = fam.gen(rng, 'quick', PROP.get(fn, prop))
             r = runner.run_case(fam, case, seed=s)
             out[f'{fn}:{s}'] = (r.digest, len(r.choices), r.harness_error)
     return out
